@@ -201,21 +201,23 @@ impl PageTree {
         if depth == 0 {
             bail!("page tree depth exeeded");
         }
-        let mut pos = 0;
+        let mut pos: u32 = 0;
         for &kid in &self.kids {
             let node = resolve.get(kid)?;
             match *node {
                 PagesNode::Tree(ref tree) => {
-                    if (pos .. pos + tree.count).contains(&page_nr) {
+                    // (declared counts are not trusted to stay within 32 bits when added up)
+                    let end = pos.saturating_add(tree.count);
+                    if (pos .. end).contains(&page_nr) {
                         return tree.page_limited(resolve, page_nr - pos, depth - 1);
                     }
-                    pos += tree.count;
+                    pos = end;
                 }
                 PagesNode::Leaf(ref _page) => {
                     if pos == page_nr {
                         return Ok(PageRc(node));
                     }
-                    pos += 1;
+                    pos = pos.saturating_add(1);
                 }
             }
         }
